@@ -1,11 +1,14 @@
 #!/bin/bash
 # usage: try_patch.sh <patch.diff> <prop> [tier] [extra check args...]
-# applies a seeded patch to /repo, runs the check, and ALWAYS restores /repo.
+# Runs a check against a seeded change WITHOUT touching /repo: the patch is applied in a scratch
+# git worktree of /repo's HEAD (+ /repo's uncommitted changes are not carried), the check is pointed
+# at it with VERIF_REPO, and the worktree is removed afterwards. (Equivalent to
+# `git -C /repo apply; ./check; git -C /repo checkout -- .`, but safe while other checks run.)
 P=$1; PROP=$2; TIER=${3:-quick}; shift 3
-cd /repo || exit 2
-if [ -n "$(git status --porcelain --untracked-files=no)" ]; then echo "/repo not clean"; exit 2; fi
-git apply "$P" || { echo "patch does not apply"; exit 2; }
-cd /verif && ./check $PROP --tier $TIER --no-evidence "$@"; rc=$?
-git -C /repo checkout -- . 
+WT=/var/tmp/seedrepo.$$
+git -C /repo worktree add --detach -q $WT HEAD || exit 2
+trap 'git -C /repo worktree remove --force $WT >/dev/null 2>&1' EXIT
+git -C $WT apply "$P" || { echo "patch does not apply"; exit 2; }
+cd /verif && VERIF_REPO=$WT VERIF_SCRATCH=/var/tmp/glaredb-verif-seed ./check $PROP --tier $TIER --no-evidence "$@"; rc=$?
 echo "check exit=$rc"
 exit $rc
